@@ -195,14 +195,18 @@ def gen_case(rng, maxops=6, mathnames=()):
     # cells assigned in place through either, the expressions asked again (the runner re-asks them)
     share = not focus and rng.random() < 0.25 and any(k in ("float", "int") for _, k in cols[1:])
     names0 = [x for r in data if r[0] == "name" and r[1] == "str" for x in r[2]]
-    dtr = None
+    dtr, force_next = None, None
     stay_p = 1.0 if focus or share else rng.choice([0.0, 0.4, 0.7, 1.0])
     for _ in range(rng.randint(3 if focus else 4 if share else 1, maxops if stay_p == 0.0 else maxops + 2)):
         k = rng.random()
         if focus and rng.random() < 0.85:
             k = rng.choice([rng.uniform(0, 0.38), rng.uniform(0.81, 0.95)])
         op = None
-        if share:
+        if force_next is not None:
+            k, force_next, forced = force_next, None, True
+        else:
+            forced = False
+        if share and not forced:
             z = rng.random()
             if z < 0.25:
                 k = 0.97                                        # an expression asked of the current table
@@ -243,6 +247,12 @@ def gen_case(rng, maxops=6, mathnames=()):
             if e and e[0] not in names:
                 pick.insert(rng.randint(0, len(pick)), e[0])
                 newcols = [(c, dict(tr.cols + [e])[c]) for c in pick]
+            if rng.random() < 0.2:
+                # a name requested twice (string form 'a b a' and list form): listed once in the result,
+                # so that a following * / + extends every column once
+                for _ in range(rng.randint(1, 2)):
+                    pick.insert(rng.randint(0, len(pick)), rng.choice(pick))
+                force_next = rng.choice([0.42, 0.58, 0.58, None])      # then + or * on that table
             if rng.random() < 0.04:
                 pick.append("zz")
                 op = ["cols", pick, rng.choice(["str", "list"])]
@@ -323,7 +333,7 @@ def gen_case(rng, maxops=6, mathnames=()):
                 op = ["expr", e[0], form] + ([rng.randint(-tr.n, tr.n - 1)] if form == "cell" and tr.n else [])
                 if form == "cell" and not tr.n:
                     op = ["expr", e[0], "item"]
-        if op and op[0] in DERIVE and rng.random() < stay_p:
+        if op and op[0] in DERIVE and rng.random() < stay_p and force_next is None:
             op = ["stay", op]
             dtr, tr = tr, saved
         if op:
@@ -516,7 +526,7 @@ def run(ctx):
                 "(shapes (n,2), (n,3), (n,2,2); length = first axis); 0-2 scalars; sometimes a non-column array; "
                 "~15% malformed constructor arguments: unequal lengths, index absent / naming a header scalar or an unlisted array, the index-name entry itself a scalar, "
                 "a scalar or a missing key listed; also explicit col_names subsets, another column as index, col_names=None, sep_* / cast_strings arguments) x random chains of <=6 (<=8 with stays) operations among rows[positions|slice|mask], cols[names and "
-                "arithmetic expressions], +, *, Table.concatenate, _copy, _t, assignment of arrays/scalars to keys drawn from one pool "
+                "arithmetic expressions, also with a name requested twice in the string and list forms, often followed by + or *], +, *, Table.concatenate, _copy, _t, assignment of arrays/scalars to keys drawn from one pool "
                 "(existing column, scalar entry -> column promotion, new column, new scalar, wrong-length array), del, t['expr'] / t.cols['expr']; "
                 "in 3/4 of the chains derivations are, with probability 0.4/0.7/1, made from a table that stays current, so that "
                 "selections and assignments interleave on one source table; "
